@@ -535,7 +535,11 @@ func c08Schedules(r *rep.Run, iso [][]string) (int64, int64) {
 func c08Race(r *rep.Run) {
 	bin := filepath.Join(rep.Root, ".bin", sprintf("racepass8.%d", os.Getpid()))
 	defer os.Remove(bin)
-	build := exec.Command("go", "build", "-race", "-o", bin, "./cmd/racepass")
+	args := []string{"build", "-race"}
+	if mf := os.Getenv("VERIF_MODFILE"); mf != "" {
+		args = append(args, "-modfile="+mf)
+	}
+	build := exec.Command("go", append(args, "-o", bin, "./cmd/racepass")...)
 	build.Dir = filepath.Join(rep.Root, "mc")
 	build.Env = append(os.Environ(), "CGO_ENABLED=1", "GOFLAGS=-mod=mod", "GOPROXY=off", "GOSUMDB=off", "GOTOOLCHAIN=local")
 	if out, err := build.CombinedOutput(); err != nil {
